@@ -1,4 +1,4 @@
-import PtVerif.Proofs.Neutron
+import PtVerif.Proofs.NeutronInvariance
 /-!
 # C16: the solute SLD is that of the compound with substituted labile hydrogen
 
@@ -8,6 +8,148 @@ substituted fraction.
 -/
 namespace PtProofs.Neutron
 open PtModel PtModel.Neutron
+
+/-! ## C16: D2O contrast -/
+
+theorem mixValues_zero (a b : Sld3 ℝ) : mixValues a b 0 = b := by
+  unfold mixValues; ext <;> simp
+
+theorem mixValues_one (a b : Sld3 ℝ) : mixValues a b 1 = a := by
+  unfold mixValues; ext <;> simp
+
+/-- at volume fraction 0 the solution is the H2O/D2O solvent mixture -/
+theorem vf0_is_solvent (t : Tbl ℝ) (c : Compound ℝ) (w d : ℝ) :
+    d2oSld t c w 0 d = (d2oSlds t c w).map fun s => mixValues s.2.1 s.1 d := by
+  unfold d2oSld
+  cases d2oSlds t c w with
+  | none => rfl
+  | some s => obtain ⟨h2o, d2o, hs, ds⟩ := s; simp [mixValues_zero]
+
+/-- at volume fraction 1 the solution is the solute: the D- and H-substituted compounds mixed
+    by the D2O fraction -/
+theorem vf1_is_solute (t : Tbl ℝ) (c : Compound ℝ) (w d : ℝ) :
+    d2oSld t c w 1 d = (d2oSlds t c w).map fun s => mixValues s.2.2.2 s.2.2.1 d := by
+  unfold d2oSld
+  cases d2oSlds t c w with
+  | none => rfl
+  | some s => obtain ⟨h2o, d2o, hs, ds⟩ := s; simp [mixValues_one]
+
+/-- in between the three SLDs mix linearly in the volume fraction -/
+theorem linear_in_volume_fraction (t : Tbl ℝ) (c : Compound ℝ) (w vf d : ℝ) (s1 s0 : Sld3 ℝ)
+    (h1 : d2oSld t c w 1 d = some s1) (h0 : d2oSld t c w 0 d = some s0) :
+    d2oSld t c w vf d = some (mixValues s1 s0 vf) := by
+  rw [vf1_is_solute] at h1; rw [vf0_is_solvent] at h0
+  unfold d2oSld
+  cases hs : d2oSlds t c w with
+  | none => rw [hs] at h1; cases h1
+  | some s =>
+    obtain ⟨h2o, d2o, hsld, dsld⟩ := s
+    rw [hs] at h1 h0
+    simp only [Option.map_some, Option.some.injEq] at h1 h0 ⊢
+    rw [← h1, ← h0]
+
+/-- the denominator of the match point: `SLD(D) − SLD(H) + SLD(H2O) − SLD(D2O)` (real parts) -/
+noncomputable def matchDenominator (s : Sld3 ℝ × Sld3 ℝ × Sld3 ℝ × Sld3 ℝ) : ℝ :=
+  s.2.2.2.1 - s.2.2.1.1 + s.1.1 - s.2.1.1
+
+/-- **match point**: at the reported D2O fraction the real SLD of the solution is the same for
+    every volume fraction, namely the reported SLD -/
+theorem match_point_independent_of_vf (t : Tbl ℝ) (c : Compound ℝ) (w : ℝ)
+    (s : Sld3 ℝ × Sld3 ℝ × Sld3 ℝ × Sld3 ℝ) (hs : d2oSlds t c w = some s)
+    (hden : matchDenominator s ≠ 0) (f sld : ℝ) (hm : d2oMatch t c w = some (f, sld)) (vf : ℝ) :
+    (d2oSld t c w vf f).map (·.1) = some sld := by
+  obtain ⟨h2o, d2o, hsld, dsld⟩ := s
+  unfold d2oMatch at hm; unfold d2oSld
+  rw [hs] at hm ⊢
+  simp only [Option.map_some, Option.some.injEq, Prod.mk.injEq] at hm ⊢
+  obtain ⟨hf, hsl⟩ := hm
+  rw [hf] at hsl
+  rw [← hsl]
+  simp only [mixValues]
+  simp only [matchDenominator] at hden
+  have hf' : f * (dsld.1 - hsld.1 + h2o.1 - d2o.1) = h2o.1 - hsld.1 := by
+    rw [← hf]; field_simp
+  have : dsld.1 * f + hsld.1 * (1 - f) = d2o.1 * f + h2o.1 * (1 - f) := by linarith
+  rw [← this]; ring
+
+/-- … and it is the only such fraction: if the real SLD at D2O fraction `d` is the same at volume
+    fractions 0 and 1, then `d` is the reported match point -/
+theorem match_point_unique (t : Tbl ℝ) (c : Compound ℝ) (w : ℝ)
+    (s : Sld3 ℝ × Sld3 ℝ × Sld3 ℝ × Sld3 ℝ) (hs : d2oSlds t c w = some s)
+    (hden : matchDenominator s ≠ 0) (f sld : ℝ) (hm : d2oMatch t c w = some (f, sld)) (d : ℝ)
+    (heq : (d2oSld t c w 0 d).map (·.1) = (d2oSld t c w 1 d).map (·.1)) : d = f := by
+  obtain ⟨h2o, d2o, hsld, dsld⟩ := s
+  unfold d2oMatch at hm; unfold d2oSld at heq
+  rw [hs] at hm heq
+  simp only [Option.map_some, Option.some.injEq, Prod.mk.injEq, mixValues] at hm heq
+  obtain ⟨hf, _⟩ := hm
+  simp only [matchDenominator] at hden
+  rw [← hf, eq_div_iff hden]
+  linarith
+
+/-! ### fasta.Molecule reports the same numbers -/
+
+/-- the two modules use the same solvent literals -/
+theorem fasta_water_eq_nsf_water :
+    (PtGen.fasta_H2O_natural_density : ℝ) = PtGen.nsf_H2O_natural_density ∧
+    (PtGen.fasta_D2O_natural_density : ℝ) = PtGen.nsf_D2O_natural_density := by
+  unfold PtGen.fasta_H2O_natural_density PtGen.nsf_H2O_natural_density
+    PtGen.fasta_D2O_natural_density PtGen.nsf_D2O_natural_density
+  constructor <;> norm_num
+
+theorem fastaWaterSld_eq (t : Tbl ℝ) (h : Atom) (nd : ℝ) :
+    fastaWaterSld t h nd = (compoundSld t (water t h nd) PtGen.ABSORPTION_WAVELENGTH).map (·.1) := rfl
+
+/-- `Molecule.sld`, `.Dsld` are the real SLDs of the H- and D-substituted forms and
+    `.D2Omatch` is `100 ×` the match fraction of `D2O_match` (default wavelength) -/
+theorem fasta_match_is_percentage (t : Tbl ℝ) (m : Compound ℝ) (mol : Molecule ℝ)
+    (hmol : molecule t m = some mol) :
+    ∃ s f sld, d2oSlds t m PtGen.ABSORPTION_WAVELENGTH = some s ∧
+      d2oMatch t m PtGen.ABSORPTION_WAVELENGTH = some (f, sld) ∧
+      mol.sld = s.2.2.1.1 ∧ mol.dsld = s.2.2.2.1 ∧ mol.d2oMatch = 100 * f := by
+  obtain ⟨e1, e2⟩ := fasta_water_eq_nsf_water
+  unfold molecule at hmol
+  simp only [fastaWaterSld_eq, e1, e2] at hmol
+  unfold d2oMatch d2oSlds
+  cases h1 : compoundSld t (water t atomH PtGen.nsf_H2O_natural_density) PtGen.ABSORPTION_WAVELENGTH with
+  | none => simp [h1] at hmol
+  | some a =>
+    cases h2 : compoundSld t (water t atomD PtGen.nsf_D2O_natural_density) PtGen.ABSORPTION_WAVELENGTH with
+    | none => simp [h1, h2] at hmol
+    | some b =>
+      cases h3 : compoundSld t (replace t.atomMass m atomH1 atomH 1) PtGen.ABSORPTION_WAVELENGTH with
+      | none => simp [h1, h2, h3] at hmol
+      | some hsl =>
+        cases h4 : compoundSld t (replace t.atomMass m atomH1 atomD 1) PtGen.ABSORPTION_WAVELENGTH with
+        | none => simp [h1, h2, h3, h4] at hmol
+        | some dsl =>
+          simp only [h1, h2, h3, h4, Option.map_some, Option.some.injEq] at hmol
+          refine ⟨(a, b, hsl, dsl), _, _, rfl, rfl, ?_, ?_, ?_⟩
+          · rw [← hmol]
+          · rw [← hmol]
+          · rw [← hmol]; simp only [lit]; push_cast; ring
+
+/-- `Molecule.D2Osld(vf, d)` is the real part of `D2O_sld(labile formula, vf, d)` -/
+theorem fasta_D2Osld_eq (t : Tbl ℝ) (m : Compound ℝ) (vf d : ℝ) :
+    moleculeD2Osld t m vf d = (d2oSld t m PtGen.ABSORPTION_WAVELENGTH vf d).map (·.1) := by
+  obtain ⟨e1, e2⟩ := fasta_water_eq_nsf_water
+  unfold moleculeD2Osld molecule d2oSld d2oSlds
+  simp only [fastaWaterSld_eq, e1, e2]
+  cases h1 : compoundSld t (water t atomH PtGen.nsf_H2O_natural_density) PtGen.ABSORPTION_WAVELENGTH with
+  | none => simp
+  | some a =>
+    cases h2 : compoundSld t (water t atomD PtGen.nsf_D2O_natural_density) PtGen.ABSORPTION_WAVELENGTH with
+    | none => simp
+    | some b =>
+      cases h3 : compoundSld t (replace t.atomMass m atomH1 atomH 1) PtGen.ABSORPTION_WAVELENGTH with
+      | none => simp
+      | some hsl =>
+        cases h4 : compoundSld t (replace t.atomMass m atomH1 atomD 1) PtGen.ABSORPTION_WAVELENGTH with
+        | none => simp
+        | some dsl =>
+          simp only [Option.map_some, Option.some.injEq, mixValues]
+          ring
+
 
 /-! ## dict operations -/
 
